@@ -336,6 +336,41 @@ pub mod compact_as {
     }
 }
 
+pub mod calls {
+    use super::*;
+    /// pallet-call style enum
+    #[derive(TypeInfo)]
+    pub enum Call {
+        /// transfer docs
+        #[codec(index = 3)]
+        Transfer {
+            dest: super::basic::Tup,
+            #[codec(compact)]
+            value: u128,
+            boxed: Box<Compact<u64>>,
+            memo: Vec<u8>,
+        },
+        Remark(Vec<u8>),
+        SetOne(u32),
+        SetOneNamed {
+            v: u16,
+        },
+        Batch(Vec<Call>, Box<Call>),
+        Nothing,
+        WithOption(Option<super::basic::E>, [u8; 4], (u8, u16)),
+    }
+    #[derive(TypeInfo)]
+    pub enum Event {
+        Done(u64),
+        Failed { code: u8, at: Box<super::basic::Tup> },
+    }
+    #[derive(TypeInfo)]
+    pub struct Outer {
+        pub c: Call,
+        pub e: Event,
+    }
+}
+
 pub mod rec {
     use super::*;
     #[derive(TypeInfo)]
@@ -536,6 +571,7 @@ pub fn all() -> Vec<(&'static str, PortableRegistry)> {
         ("modules", reg_of::<generics::UsesInner>()),
         ("boxed_param", reg_of::<generics::UsesBoxedParam>()),
         ("phantom", reg_of::<generics::UsesPh>()),
+        ("calls", reg_of::<calls::Outer>()),
         ("reach", reg_of::<reach::Top>()),
         ("compact_as", reg_of::<compact_as::All>()),
         ("rec", reg_of::<rec::Rec>()),
